@@ -3,6 +3,7 @@
 // redirected here to a counting allocator that also detects frees of blocks that are not live.
 // Case line:  <kind> <op> <op> ...        two objects A and B (both default-constructed first)
 //   sequence kinds  vec (utl::vector<int>)  svec (utl::static_vector<int,4>)  small (small_vector<int,4> over utl types)
+//                   smalls (small_vector<int,4> in its default configuration: std::variant<utl::static_vector, std::vector>)
 //                   arr (utl::array<int,4>: only w / k / a / b / s / f)
 //     d        A = fresh default-constructed object        c<n>     A = fresh object from the sized constructor
 //     p<v>     A.push_back(v)        r<n>  A.resize(n)     w<i>.<v> if (i < A.size()) A[i] = v
@@ -168,6 +169,7 @@ static std::string handle(const Case& c) {
     if (c.op == "vec") r = run_seq<utl::vector<int>, std::vector<int>, true>(c, 1u << 30);
     else if (c.op == "svec") r = run_seq<utl::static_vector<int, CAP>, bounded, true>(c, CAP);
     else if (c.op == "small") r = run_seq<nmtools::small_vector<int, CAP, utl::either, utl::static_vector, utl::vector>, std::vector<int>, true>(c, 1u << 30);
+    else if (c.op == "smalls") r = run_seq<nmtools::small_vector<int, CAP>, std::vector<int>, true>(c, 1u << 30);
     else if (c.op == "arr") r = run_seq<utlarr, stdarr, false>(c, 4);
     else if (c.op == "may") r = run_maybe<int>(c);
     else if (c.op == "mayt") { r = run_maybe<Tr>(c); obj = true; }
